@@ -14,7 +14,18 @@ def ts_pool():
     return [datetime(2018, 3, 7, 12, 43), datetime(2020, 2, 29, 23, 59, 59, 999999), datetime(2019, 12, 31, 0, 0),
             datetime(2021, 1, 31, 9, 0, 1), datetime(2019, 2, 28, 12, 0), datetime(2024, 2, 28, 23, 59, 30), datetime(2020, 12, 31, 23, 59),
             datetime(2023, 4, 30, 8, 15), datetime(1970, 1, 1, 0, 0), datetime(2100, 12, 31, 23, 59, 59), datetime(2000, 2, 29, 6, 30),
-            datetime(2019, 1, 30, 10, 10), datetime(2022, 10, 31, 17, 0), datetime(2018, 3, 11, 15, 15, 15), datetime(2020, 3, 7, 0, 0, 1)]
+            datetime(2019, 1, 30, 10, 10), datetime(2022, 10, 31, 17, 0), datetime(2018, 3, 11, 15, 15, 15), datetime(2020, 3, 7, 0, 0, 1),
+            datetime(1996, 2, 29, 12, 0), datetime(2104, 2, 29, 8, 30, 30)]
+
+
+def grid_ts():
+    import calendar as _c
+    out = []
+    for y in range(2017, 2033):
+        for m in range(1, 13):
+            out.append(datetime(y, m, 1, 0, 0))
+            out.append(datetime(y, m, _c.monthrange(y, m)[1], 23, 59, 59, 999999))
+    return out
 
 
 def pools():
@@ -80,6 +91,22 @@ def tokens_for(rid, rng, cap=60):
              139: ["half an hour", "half a day", "halbe stunde", "1/2 day", "halber tag", "half week"],
              104: ["one", "zwölf uhr", "eins", "twelve o'clock", "elf h"], 106: ["very early", "sehr spät", "late", "früher"], 107: ["morning", "abends", "very late", "so früh wie möglich", "first", "tonight"]}
     words = list(words) + extra.get(rid, [])
+    # four-digit clock notation interacts with the reference year (military-time heuristic): forms derived from the pool years
+    if rid in (127, 128, 111):
+        for y in sorted({t.year + d for t in ts_pool() for d in (-1, 0, 1)}):
+            hh, mm = y // 100, y % 100
+            if rid == 111:
+                words.append(str(y)); continue
+            if mm > 59 or hh > 23:
+                continue
+            forms = ["%02d%02d" % (hh, mm), "%02d%02d uhr" % (hh, mm)]
+            if hh >= 12:
+                forms += ["%02d%02d pm" % (hh - 12, mm), "%02d%02dpm" % (hh - 12, mm), "%02d%02d p.m." % (hh - 12, mm), "%02d%02d am" % (hh - 12, mm), "%02d%02d pm" % (hh, mm)]
+            else:
+                forms += ["%02d%02d am" % (hh, mm), "%02d%02d pm" % (hh, mm)]
+            if rid == 128:
+                forms = [f[:2] + ":" + f[2:] for f in forms]
+            words += forms
     out = []
     seen = set()
     for w in words:
@@ -105,6 +132,49 @@ def arg_pool(pred, P, rng, tokcache):
     return P[cell]
 
 
+_DOW = ["monday", "tuesday", "wednesday", "thursday", "friday", "saturday", "sunday"]
+_MON = ["january", "february", "march", "april", "may", "june", "july", "august", "september", "october", "november", "december"]
+_POD = {"morning": "morning", "afternoon": "afternoon", "evening": "evening", "night": "night", "noon": "noon", "forenoon": "vormittag", "first": "first", "last": "last",
+        "earlymorning": "early morning", "lateevening": "late evening", "earlyevening": "early evening", "latemorning": "late morning",
+        "veryearlymorning": "very early morning", "verylatenight": "very late night"}
+
+
+def render(a):
+    """a plausible surface form of an argument value (for the directed failing-input search; best effort, may return None)"""
+    from ctparse.types import Time, Interval, Duration
+    if hasattr(a, "match"):
+        return a.match.group(0)
+    if isinstance(a, Time):
+        parts = []
+        if a.DOW is not None: parts.append(_DOW[a.DOW % 7])
+        if a.year is not None and a.month is not None and a.day is not None: parts.append("%d.%d.%d" % (a.day, a.month, a.year))
+        elif a.month is not None and a.day is not None: parts.append("%d.%d." % (a.day, a.month))
+        elif a.day is not None: parts.append("%d%s" % (a.day, {1: "st", 2: "nd", 3: "rd"}.get(a.day % 10 if a.day not in (11, 12, 13) else 0, "th")))
+        elif a.month is not None: parts.append(_MON[(a.month - 1) % 12] + ("" if a.year is None else " %d" % a.year))
+        elif a.year is not None: parts.append(str(a.year))
+        if a.hour is not None: parts.append("%d:%02d" % (a.hour, a.minute) if a.minute is not None else "%d o'clock" % a.hour)
+        if a.POD is not None:
+            if a.POD not in _POD: return None
+            parts.append(_POD[a.POD])
+        return " ".join(parts) or None
+    if isinstance(a, Interval):
+        f, t = (render(a.t_from) if a.t_from is not None else None), (render(a.t_to) if a.t_to is not None else None)
+        if f and t: return "%s - %s" % (f, t)
+        if f: return "from %s" % f
+        if t: return "until %s" % t
+        return None
+    if isinstance(a, Duration):
+        return "%d %s" % (a.value, a.unit.value)
+    return None
+
+
+def hint_for(ts, args):
+    rs = [render(a) for a in args]
+    if any(r is None for r in rs):
+        return None
+    return {"texts": [" ".join(rs), "x " + " ".join(rs) + " y"], "ts": [ts.year, ts.month, ts.day, ts.hour, ts.minute, ts.second]}
+
+
 def snapshot(a):
     return enc_art(a)
 
@@ -115,7 +185,8 @@ def run(rng, per_rule=1200):
     P = pools()
     tss = ts_pool()
     tokcache = {}
-    ops, meta = [], []
+    grid_phase = rng.randrange(3)
+    ops, meta, hints = [], [], []
     dist = {}
     for name, (fn, pats) in rules.items():
         poolz = [arg_pool(p, P, rng, tokcache) for p in pats]
@@ -124,7 +195,11 @@ def run(rng, per_rule=1200):
             total *= max(1, len(pl))
         uses_ts = True
         tuples = []
-        if total * 3 <= per_rule:
+        if total * len(tss) <= 4 * per_rule:
+            for combo in itertools.product(*poolz):
+                for ts in tss:
+                    tuples.append((ts, combo))
+        elif total * 3 <= per_rule:
             for combo in itertools.product(*poolz):
                 for ts in rng.sample(tss, 3):
                     tuples.append((ts, combo))
@@ -139,6 +214,15 @@ def run(rng, per_rule=1200):
                 own = {"isDOY": _T(month=ts.month, day=ts.day), "isDOM": _T(day=ts.day), "isDOW": _T(DOW=ts.weekday())}.get(pn)
                 if own is not None:
                     tuples.append((ts, (own,)))
+        # calendar grid: rules whose whole argument pool is small are run at the first and last day of every month of 16 years
+        # (reference-date dependent arithmetic has rare windows: leap years, 31sts, weekday/day-of-month coincidences)
+        if total <= 64:
+            step = 1 if per_rule >= 2000 else 3
+            combos = list(itertools.product(*poolz))
+            for gi, ts in enumerate(grid_ts()):
+                for ci, combo in enumerate(combos):
+                    if (gi + ci + grid_phase) % step == 0:
+                        tuples.append((ts, combo))
         for ts, combo in tuples:
             args = [copy.copy(a) if not hasattr(a, "match") else a for a in combo]
             # give arguments distinct, contiguous spans
@@ -156,6 +240,7 @@ def run(rng, per_rule=1200):
             after = [snapshot(a) for a in args]
             ops.append("rule %s %s %s" % (name, enc_ts(ts), " ".join(before)))
             meta.append((name, ts, before, res, after))
+            hints.append((ts, args))
             k = res.split(" ")[0] + ("" if res != "ok N" else "-none")
             dist.setdefault(name, {}).setdefault(k, 0)
             dist[name][k] += 1
@@ -172,16 +257,18 @@ def run(rng, per_rule=1200):
                 res = "err " + type(e).__name__
             ops.append("latent %s %s" % (enc_ts(ts), before))
             meta.append(("latent", ts, [before], res, [snapshot(a)]))
+            hints.append((ts, [a0]))
     got = Driver().run(ops)
     bad = []
     nontrivial = 0
-    for (name, ts, before, res, after), g, op in zip(meta, got, ops):
+    for (name, ts, before, res, after), g, op, (hts, hargs) in zip(meta, got, ops, hints):
         if res != "ok N":
             nontrivial += 1
         if g != res:
-            bad.append({"op": op, "rule": name, "ts": str(ts), "model": g, "impl": res})
+            bad.append({"op": op, "rule": name, "ts": str(ts), "model": g, "impl": res, "hint": hint_for(hts, hargs) if len(bad) < 200 else None})
         elif before != after:
-            bad.append({"op": op, "rule": name, "ts": str(ts), "impl": "arguments changed by the call: %s -> %s" % (before, after), "model": "arguments unchanged"})
+            bad.append({"op": op, "rule": name, "ts": str(ts), "impl": "arguments changed by the call: %s -> %s" % (before, after), "model": "arguments unchanged",
+                        "hint": hint_for(hts, hargs) if len(bad) < 200 else None})
     return {"name": "rules", "cases": len(ops), "nontrivial": nontrivial, "disagreements": bad, "distribution": dist}
 
 
